@@ -315,6 +315,128 @@ def eval_const(r, idx, elw, route):
         r.violate(key + "|data", case, f"re-laid-out constant for {lay} on shape {shape}: data {got} but the layout prescribes {want} (route {route})")
 
 
+# ------------------------------------------------------------------------------------------------ subviews of a global
+
+
+def type_addr(ty):
+    """(address function over logical indices, in elements, relative to the buffer the value is a view of) described by a memref type"""
+    lay = ty.layout
+    shape = list(ty.get_shape())
+    if hasattr(lay, "data") and hasattr(lay.data, "tstrides"):
+        dims = [[(s.bound, s.step) for s in ts.strides] for ts in lay.data.tstrides]
+        off = lay.data.offset or 0
+        return lambda idx: ref.addr(dims, idx) + off
+    if type(lay).__name__ == "StridedLayoutAttr":
+        st = [x.data for x in lay.strides.data]
+        off = lay.offset.data if isinstance(getattr(lay.offset, "data", None), int) else 0
+        return lambda idx: off + sum(i * s_ for i, s_ in zip(idx, st))
+    st, acc = [], 1
+    for n in reversed(shape):
+        st.insert(0, acc)
+        acc *= n
+    return lambda idx: sum(i * s_ for i, s_ in zip(idx, st))
+
+
+def read_through(mod, value, idx, depth=0):
+    """the element a reader of `value` sees at logical index idx, following the final IR: global data through the view types, allocations through the copy that fills them"""
+    from xdsl.ir import OpResult
+
+    assert depth < 12
+    if not isinstance(value, OpResult):
+        raise ValueError("block argument")
+    op = value.op
+    if op.name in ("memref.memory_space_cast", "memref.cast"):
+        return read_through(mod, op.operands[0], idx, depth + 1)
+    if op.name == "memref.alloc" or op.name == "snax.alloc":
+        for use in value.uses:
+            if use.operation.name == "memref.copy" and use.index == 1:
+                return read_through(mod, use.operation.operands[0], idx, depth + 1)
+        raise ValueError("allocation that is never filled")
+    if op.name in ("memref.subview", "memref.get_global"):
+        root = value
+        base = 0
+        if op.name == "memref.subview":
+            src = op.operands[0]
+            if not (isinstance(src, OpResult) and src.op.name == "memref.get_global"):
+                raise ValueError("subview of a non-global")
+            offs = [x for x in op.static_offsets.get_values()]
+            rl = value.type.layout
+            if hasattr(rl, "data") and hasattr(rl.data, "tstrides"):
+                # tile of a tiled-strided buffer: pointer of the tile + the tile's own layout (documented lowering: convert-memref-to-arith)
+                base = type_addr(src.type)(offs)
+            root = src
+            a = base + type_addr(value.type)(idx)
+        else:
+            a = type_addr(value.type)(idx)
+        gname = root.op.name_.string_value()
+        for g in mod.walk():
+            if g.name == "memref.global" and g.sym_name.data == gname:
+                data = list(g.initial_value.get_values())
+                return data[a] if 0 <= a < len(data) else ("out-of-bounds", a)
+        raise ValueError("global not found")
+    raise ValueError("unsupported producer " + op.name)
+
+
+def eval_subglobal(r, idx, ntiles, nviews):
+    shape, dims = dense_layouts()[idx]
+    if len(shape) != 2:
+        r.rejected = "rank"
+        return
+    R, C = shape
+    n = R * C * ntiles
+    vals = list(range(1, n + 1))
+    lay = tsl_text(dims)
+    key = f"subglobal|{shape}|{dims}|{ntiles}|{nviews}"
+    case = dict(kind="subglobal", idx=idx, ntiles=ntiles, nviews=nviews)
+
+    def nested(vs, shp_):
+        if len(shp_) == 1:
+            return "[" + ", ".join(map(str, vs)) + "]"
+        step = len(vs) // shp_[0]
+        return "[" + ", ".join(nested(vs[i * step : (i + 1) * step], shp_[1:]) for i in range(shp_[0])) + "]"
+
+    gshape = [R * ntiles, C]
+    gt = f"memref<{gshape[0]}x{C}xi32>"
+    lines = [f"  %k = memref.get_global @g : {gt}"]
+    for t in range(nviews):
+        st = f"memref<{R}x{C}xi32, strided<[{C}, 1], offset: {t * R * C}>>"
+        lines.append(f"  %s{t} = memref.subview %k[{t * R}, 0] [{R}, {C}] [1, 1] : {gt} to {st}")
+        lines.append(f'  %l{t} = "snax.layout_cast"(%s{t}) : ({st}) -> memref<{R}x{C}xi32, {lay}>')
+        lines.append(f'  "test.op"(%l{t}) {{verif.id = {t} : i32}} : (memref<{R}x{C}xi32, {lay}>) -> ()')
+    text = (
+        f'builtin.module {{\n  "memref.global"() <{{sym_name = "g", type = {gt}, initial_value = dense<{nested(vals, gshape)}> : tensor<{gshape[0]}x{C}xi32>, sym_visibility = "private", constant}}> : () -> ()\n'
+        "func.func @f() {\n" + "\n".join(lines) + "\n  func.return\n}\n}\n"
+    )
+    r.obs = ("subglobal", shape, tuple(map(tuple, dims)), ntiles, nviews)
+    r.states = n
+    r.nontrivial = True
+    r.sample = dict(kind="subglobal", tile=shape, layout=lay, tiles=ntiles, views=nviews)
+    try:
+        mod = common.compile_text(text, "realize-memref-casts")
+    except common.Rejected as e:
+        r.rejected = e.kind
+        r.count("subglobal_rejected:" + str(e)[:70])
+        return
+    out_text = common.to_text(mod)
+    r.count("subglobal_global_transformed", int("g_transformed" in out_text))
+    r.validated = 1
+    for op in mod.walk():
+        if op.name != "test.op" and not (op.name == "builtin.unregistered" and op.op_name.data == "test.op"):
+            continue
+        t = op.attributes["verif.id"].value.data
+        for i, j in itertools.product(range(R), range(C)):
+            r.transitions += 1
+            want = vals[(t * R + i) * C + j]
+            try:
+                got = read_through(mod, op.operands[0], [i, j])
+            except ValueError as e:
+                r.count("subglobal_unreadable:" + str(e)[:40])
+                return
+            if got != want:
+                r.violate(key + "|data", dict(case, output_ir=out_text), f"tile {t} of the global, element ({i}, {j}): the consumer reads {got}, the global holds {want} there; layout {lay}, {ntiles} tiles, {nviews} views")
+                return
+
+
 def eval_transpose(r, rows, cols):
     from snaxc.transforms.frontend.remove_transpose_constants import RemoveTransposeConstants
 
@@ -339,6 +461,10 @@ def space(tier):
             cases.append(("const", i, elw, "direct"))
         for route in ("arith", "global"):
             cases.append(("const", i, 4, route))
+    for i, (shape, _) in enumerate(dense_layouts()):
+        if len(shape) == 2:
+            for ntiles, nviews in ((1, 1), (2, 1), (2, 2), (3, 2)):
+                cases.append(("subglobal", i, ntiles, nviews))
     for rws in range(1, 6):
         for cls in range(1, 6):
             cases.append(("transpose", rws, cls))
@@ -351,6 +477,8 @@ def evaluate(case) -> CaseResult:
         eval_prog(r, case[1])
     elif case[0] == "const":
         eval_const(r, *case[1:])
+    elif case[0] == "subglobal":
+        eval_subglobal(r, *case[1:])
     else:
         eval_transpose(r, *case[1:])
     r.count("cases_" + case[0])
@@ -363,6 +491,8 @@ def replay(case):
         eval_prog(r, ST.from_json(case["prog"]), only=case.get("trips"))
     elif case["kind"] == "const":
         eval_const(r, case["idx"], case["elw"], case["route"])
+    elif case["kind"] == "subglobal":
+        eval_subglobal(r, case["idx"], case["ntiles"], case["nviews"])
     else:
         eval_transpose(r, case["rows"], case["cols"])
     return r.violations
